@@ -17,7 +17,7 @@ RULE = (
     "E1 product enumeration via a real evaluator step in a Plan with a tracker: per variable (V=2, all 12x12 assignments) "
     "bound kind {both, lower only, upper only, none} x value position {below, at lower, inside, at upper, above}; "
     "linear row 0 kind {eq, lower, upper, two-sided, unbounded} x position (17 settings incl. values outside a bound by a relative 2^-20, row 1 cycled); non-linear "
-    "constraint 0 kind x position (15 settings, constraint 1 cycled); transforms {none, variable+constraint+objective scalers, offsets-only variable scaler (thorough: also scales-only and a second set)}; "
+    "constraint 0 kind x position (15 settings, constraint 1 cycled); transforms {none, variable+constraint+objective scalers, offsets-only variable scaler, constraint scaler only (thorough: also scales-only and a second set)}; "
     "tracker tolerance {1e-10, None, 0.0, 0.5}. Oracle: IEEE formulas value-lower, value-upper, max(lower-value, value-upper, 0); "
     "bound information present whenever any variable bound is finite; tracker holds the result iff all violations <= tol; for one tolerance the evaluation is repeated with the realization failing: the result without functions still reports exact bound and linear differences. "
     "Every case is non-trivial."
@@ -101,6 +101,8 @@ def build(case: dict[str, Any]) -> tuple[dict[str, Any], Any, dict[str, Any]]:
         transforms = make_transforms(var_offsets=[1.0, -2.0])  # offsets only
     elif case["transforms"] == 4:
         transforms = make_transforms(var_scales=[4.0, 0.5])  # scales only
+    elif case["transforms"] == 5:
+        transforms = make_transforms(con_scales=[8.0, 0.25])  # a constraint scaler and no variable transform
     truth = {
         "x": x, "vlb": np.array([lb0, lb1]), "vub": np.array([ub0, ub1]),
         "lin": lin_values, "llb": np.array([b[0] for b in lin_bounds]), "lub": np.array([b[1] for b in lin_bounds]),
@@ -218,7 +220,7 @@ def run_shard(shard: dict[str, Any]) -> core.ShardResult:
     for v1 in range(len(VAR_SETTINGS)):
         for lin in range(len(CON_SETTINGS)):
             for nl in range(len(CON_SETTINGS)):
-                for transforms in ((0, 1, 2, 3, 4) if thorough else (0, 1, 3)):
+                for transforms in ((0, 1, 2, 3, 4, 5) if thorough else (0, 1, 3, 5)):
                     tols = [1e-10, None, 0.0] + ([0.5] if transforms == 0 and (thorough or (lin + nl) % 3 == 0) else [])
                     if not thorough:
                         tols = [tols[(lin + nl + v1) % 3]] + tols[3:]
